@@ -615,6 +615,54 @@ def extract_copy_cfg(repo):
     return {'flag_per_item': flag_per_item, 'embed_coalesces': embed_coalesces}
 
 
+def extract_attr_default_order(repo):
+    """FieldSignature.get_attr_default walks `(type-specific defaults, generic defaults)` and returns the first
+    hit: True when the type-specific table comes first"""
+    tree = ast.parse(_src(repo, 'django_evolution/signature.py'))
+    cls = _find_class(tree, 'FieldSignature')
+    fn = _find_func(cls, 'get_attr_default')
+    for n in ast.walk(fn):
+        if isinstance(n, ast.For) and isinstance(n.iter, ast.Tuple) and len(n.iter.elts) == 2:
+            a, b = [ast.unparse(e) for e in n.iter.elts]
+            spec = lambda t: '_ATTRIBUTE_DEFAULTS.get(self.field_type' in t
+            gen = lambda t: "_ATTRIBUTE_DEFAULTS['*']" in t
+            if spec(a) and gen(b):
+                return True
+            if gen(a) and spec(b):
+                return False
+    raise ExtractError('FieldSignature.get_attr_default is not a first-hit walk over the two default tables')
+
+
+def extract_collects_all_new_evolutions(repo):
+    """Evolver.evolve(): `new_evolutions` is created once before the loop over the task classes and every task of
+    every class adds its `new_evolutions` to it, unconditionally"""
+    tree = ast.parse(_src(repo, 'django_evolution/evolve/evolver.py'))
+    cls = _find_class(tree, 'Evolver')
+    fn = _find_func(cls, 'evolve')
+    tries = [n for n in ast.walk(fn) if isinstance(n, ast.Try)]
+    if not tries:
+        raise ExtractError('Evolver.evolve has no try block')
+    body = tries[0].body
+    init = [i for i, st in enumerate(body) if isinstance(st, ast.Assign) and len(st.targets) == 1 and
+            isinstance(st.targets[0], ast.Name) and st.targets[0].id == 'new_evolutions' and
+            isinstance(st.value, ast.List) and not st.value.elts]
+    loops = [i for i, st in enumerate(body) if isinstance(st, ast.For) and '_tasks_by_class' in ast.unparse(st.iter)]
+    if len(init) != 1 or len(loops) != 1 or init[0] > loops[0]:
+        return False
+    outer = body[loops[0]]
+    for st in outer.body:
+        if isinstance(st, ast.For) and isinstance(st.target, ast.Name) and ast.unparse(st.iter) == 'tasks':
+            t = st.target.id
+            if len(st.body) == 1 and isinstance(st.body[0], ast.AugAssign) and isinstance(st.body[0].op, ast.Add) and \
+                    ast.unparse(st.body[0].target) == 'new_evolutions' and \
+                    ast.unparse(st.body[0].value) == '%s.new_evolutions' % t and not st.orelse:
+                # nothing else in the outer loop may rebind the list
+                others = [x for x in ast.walk(outer) if isinstance(x, ast.Assign) and
+                          any(isinstance(tt, ast.Name) and tt.id == 'new_evolutions' for tt in x.targets)]
+                return not others
+    return False
+
+
 def extract_optimizer_copies(repo):
     """AppMutator._preprocess_mutations rebinds `mutations` to a deep copy before anything else uses it"""
     tree = ast.parse(_src(repo, 'django_evolution/mutators/app_mutator.py'))
@@ -709,6 +757,16 @@ def regenerate(repo, outdir):
     parts.append('')
     parts.append('/-- how change_meta_unique_together / change_meta_index_together iterate over their entries -/')
     parts.append('def togetherIteration : String := ' + lean_str(titer))
+    ado = extract_attr_default_order(repo)
+    flags['attr_default_type_first'] = ado
+    parts.append('')
+    parts.append('/-- FieldSignature.get_attr_default consults the field type\'s own defaults before the generic ones -/')
+    parts.append('def attrDefaultTypeFirst : Bool := ' + ('true' if ado else 'false'))
+    cane = extract_collects_all_new_evolutions(repo)
+    flags['collects_all_new_evolutions'] = cane
+    parts.append('')
+    parts.append('/-- Evolver.evolve hands the `new_evolutions` of every task of every task class to _save_project_sig -/')
+    parts.append('def collectsAllNewEvolutions : Bool := ' + ('true' if cane else 'false'))
     cc = extract_copy_cfg(repo)
     flags['copy_cfg'] = cc
     parts.append('')
